@@ -99,6 +99,9 @@ type boundSeed struct {
 	// reach before the program returns; unit = lower bound of the bytes one unit occupies
 	growth bool
 	unit   int
+	// slow: reaching 64x the limit takes the interpreter minutes even when nothing stops it
+	// (element-wise loops, quadratic conversions): the program returns at 8x the limit
+	slow bool
 }
 
 // growthSeed builds a script `setup; while <size> < N { step }; return <size>`.
@@ -119,9 +122,10 @@ var growthSeeds = []boundSeed{
 	growthSeed("feedback-join-empty-sep", 1, `var s = "0123456789abcdef"`, `s.length`, `s = String.join([s, s], separator: "")`),
 	growthSeed("feedback-join-short-sep", 1, `var s = "0123456789abcdef"`, `s.length`, `s = String.join([s, s, s], separator: ",")`),
 	growthSeed("feedback-join-array", 1, `var s = "ab"; var a = [s, s]`, `s.length`, `s = String.join(a, separator: ""); a = [s, s, s, s]`),
-	growthSeed("feedback-replaceall", 1, `var s = "aaaaaaaa"`, `s.length`, `s = s.replaceAll(of: "a", with: "aa")`),
-	growthSeed("feedback-replaceall-sep", 1, `var s = "a,a,a,a"`, `s.length`, `s = s.replaceAll(of: ",", with: ",a,a,")`),
-	growthSeed("feedback-split-join", 1, `var s = "ab,cd,ef"`, `s.length`, `let parts = s.split(separator: ","); s = String.join(parts.concat(parts), separator: ",")`),
+	// NOTE: replaceAll / split with MANY matches cost quadratic (metered) computation: one / two matches only
+	growthSeed("feedback-replaceall", 1, `var s = "aXa"`, `s.length`, `s = s.replaceAll(of: "X", with: s)`),
+	growthSeed("feedback-replaceall-with-longer", 1, `var s = "0123456789abcdefX"`, `s.length`, `s = s.replaceAll(of: "X", with: s.concat(s))`),
+	growthSeed("feedback-split-join", 1, `var s = "abcdefgh,abcdefgh"`, `s.length`, `let parts = s.split(separator: ","); s = String.join([parts[0], parts[0], parts[0]], separator: "").concat(",").concat(parts[1]).concat(parts[1])`),
 	growthSeed("feedback-concat", 1, `var s = "0123456789abcdef"`, `s.length`, `s = s.concat(s)`),
 	growthSeed("feedback-template", 1, `var s = "0123456789abcdef"`, `s.length`, `s = "\(s)\(s)"`),
 	growthSeed("feedback-tolower", 1, `var s = "ABCDEFGH"`, `s.length`, `s = s.toLower().concat(s.toLower())`),
@@ -139,9 +143,9 @@ var growthSeeds = []boundSeed{
 	growthSeed("feedback-array-appendall", 8, `var a: [Int] = [1, 2, 3, 4]`, `a.length`, `a.appendAll(a.slice(from: 0, upTo: a.length))`),
 	growthSeed("feedback-array-insert", 8, `var a: [Int] = [1, 2, 3, 4]`, `a.length`, `a = a.concat(a); a.insert(at: a.length / 2, a.length)`),
 	growthSeed("feedback-array-tovariable", 8, `var a: [Int] = [1, 2, 3, 4]`, `a.length`, `let c: [Int; 4] = [a[0], a[1], a[2], a[3]]; a = a.concat(c.toVariableSized())`),
-	growthSeed("feedback-dict-insert", 16, `let d: {Int: Int} = {}`, `d.length`, `d[d.length] = d.length`),
+	growthSeed("feedback-dict-insert", 32, `let d: {Int: Int} = {}`, `d.length`, `d[d.length] = d.length`),
 	growthSeed("feedback-dict-keys-values", 8, `let d: {Int: Int} = {1: 1, 2: 2}; var a: [Int] = [1]`, `a.length`, `a = a.concat(d.keys).concat(d.values); d[a.length] = 1`),
-	growthSeed("feedback-dict-string-keys", 16, `let d: {String: String} = {}`, `d.length`, `let k = d.length.toString(); d[k] = k`),
+	growthSeed("feedback-dict-string-keys", 32, `let d: {String: String} = {}`, `d.length`, `let k = d.length.toString(); d[k] = k`),
 	growthSeed("feedback-nested-arrays", 8, `var a: [[Int]] = [[1, 2, 3, 4, 5, 6, 7, 8]]`, `a.length * 8`, `a = a.concat(a)`),
 	growthSeed("feedback-bigint-square", 1, `var x: Int = 1000003`, `x.toBigEndianBytes().length`, `x = x * x`),
 	growthSeed("feedback-bigint-shift", 1, `var x: UInt = 255`, `x.toBigEndianBytes().length`, `x = x << UInt(x.toBigEndianBytes().length * 8)`),
@@ -323,10 +327,13 @@ func BoundSeedNames() []string {
 }
 
 // GrowthFactor: a value may grow to at most this multiple of the memory limit before the
-// memory limit error must have been raised.
+// memory limit error must have been raised (GrowthFactorSlow for the seeds marked slow).
 const GrowthFactor = 64
+const GrowthFactorSlow = 8
 
-var growthMemLimits = []uint64{20_000, 200_000}
+var slowGrowth = map[string]bool{"feedback-int-tostring": true, "feedback-fromcharacters": true, "feedback-array-tovariable": true, "feedback-dict-insert": true, "feedback-dict-keys-values": true, "feedback-dict-string-keys": true, "feedback-struct-array": true, "feedback-decodehex": true, "feedback-utf8-fromutf8": true, "feedback-bigint-shift": true, "feedback-bigendianbytes": true, "feedback-array-appendall": true}
+
+var growthMemLimits = []uint64{10_000, 30_000}
 
 // GrowthCases: every growth seed x memory limit x engine (n > 0: a random sample of n seeds).
 func GrowthCases(r *rand.Rand, n int) []BoundCase {
@@ -339,8 +346,11 @@ func GrowthCases(r *rand.Rand, n int) []BoundCase {
 		s := growthSeeds[k]
 		mem := growthMemLimits[r.Intn(len(growthMemLimits))]
 		bound := GrowthFactor * mem
+		if slowGrowth[s.name] {
+			bound = GrowthFactorSlow * mem
+		}
 		units := int(bound) / s.unit
-		bc := BoundCase{Seed: s.name, CompLimit: 2_000_000_000, MemLimit: mem, GrowthBound: bound, Item: s.gen(r, units)}
+		bc := BoundCase{Seed: s.name, CompLimit: 40_000_000, MemLimit: mem, GrowthBound: bound, Item: s.gen(r, units)}
 		for _, e := range host.Engines {
 			c := bc
 			c.Engine = int(e)
